@@ -25,7 +25,10 @@ func ParseComment(token antlr.Token, filename string) *TODO {
 
 	var t = strings.TrimSpace(comment)
 	// todo: add todo list
-	if strings.HasPrefix(t, "//") || strings.HasPrefix(t, "/*") || strings.HasPrefix(t, "*/") || strings.HasPrefix(t, "#") {
+	if strings.HasPrefix(t, "#") {
+		// the hash marker is one byte long
+		t = strings.TrimSpace(t[1:])
+	} else if strings.HasPrefix(t, "//") || strings.HasPrefix(t, "/*") || strings.HasPrefix(t, "*/") {
 		t = strings.TrimSpace(t[2:])
 	}
 
